@@ -10,6 +10,7 @@ mod prog;
 mod s_eval;
 mod rng;
 mod s_c01;
+mod s_c02;
 mod s_c04;
 mod s_c06;
 mod s_c08;
@@ -67,6 +68,7 @@ fn main() {
     };
     match stream {
         "C01" => s_c01::run(&mut em, thorough, seed),
+        "C02" => s_c02::run(&mut em, thorough, seed),
         "C04" => s_c04::run(&mut em, thorough, seed),
         "C06" => s_c06::run(&mut em, thorough, seed),
         "C08" => s_c08::run(&mut em, thorough, seed),
